@@ -4,6 +4,8 @@ CONSTANTS
     CIDS = {"c1","c2","c3"}
     VALS = {"vA","vB"}
     MAXIDX = 4
+    INITS <- AllInits
+    ROTOPS = {"save","clean","mklogs"}
     KEEPS = {1,2,3}
     MAXOPS = 5
     MAXCLEAN = 3
